@@ -803,8 +803,20 @@ let rec pr_old top = function
   wrap (Nat.ltb prec_not top) ((TKw (KNot, After)) :: (pr_old prec_not a))
 | EBin (o, a, b) ->
   let p = prec_bin o in
-  wrap (Nat.ltb p top)
-    (app (pr_old p a) (app ((TOp ((tok_bin o), Spaced)) :: []) (pr_old p b)))
+  let plain =
+    wrap (Nat.ltb p top)
+      (app (pr_old p a)
+        (app ((TOp ((tok_bin o), Spaced)) :: []) (pr_old p b)))
+  in
+  (match o with
+   | BMul ->
+     (match a with
+      | ETuple l ->
+        TLpar :: (app (seqt_old top l (pr_old top b)) (TRpar :: []))
+      | EList l ->
+        TLbrk :: (app (seqt_old top l (pr_old top b)) (TRbrk :: []))
+      | _ -> plain)
+   | _ -> plain)
 | ECmp (a, o, b, _) ->
   let p = prec_cmp o in
   wrap (Nat.ltb p top) (app (pr_old p a) (app (cmp_toks o) (pr_old p b)))
@@ -850,6 +862,14 @@ and seq_old top = function
    | ENil -> pr_old top e
    | ECons (_, _) ->
      app (pr_old top e) (app ((TComma After) :: []) (seq_old top l')))
+
+(** val seqt_old : nat -> exprs -> tok list -> tok list **)
+
+and seqt_old top l last =
+  match l with
+  | ENil -> last
+  | ECons (e, l') ->
+    app (pr_old top e) (app ((TComma After) :: []) (seqt_old top l' last))
 
 (** val items_old : nat -> items -> tok list **)
 
